@@ -121,6 +121,8 @@ void seqlock_test() {
   set_op_names(kOps, 3);
   const int W = (int)opt("writers", 1), U = (int)opt("stores", 2), Rn = (int)opt("readers", 1), L = (int)opt("loads", 2);
   const int use_update = (int)opt("use_update", 1);
+  // --opt noop=1: every second update leaves the value bit-identical (a saturating / conditional functor); =2: all of them
+  const int noop = (int)opt("noop", 0);
   using SL = xenium::seqlock<T, xenium::policy::slots<Slots>>;
   auto* sl = new SL(T::make(0));
   constexpr bool load_lockfree = Slots > 1;
@@ -128,7 +130,13 @@ void seqlock_test() {
     spawn([=] {
       for (int i = 0; i < U; i++) {
         int tag = 1 + w * 8 + i;
-        if (use_update && i % 2 == 1) {
+        if (use_update && i % 2 == 1 && (noop == 2 || (noop == 1 && (i / 2 + w) % 2 == 0))) {
+          op_begin(1, 0, 0, false);
+          sl->update([](T& v) {
+            if (!v.consistent()) fail("TORN", "update functor received a torn value (tag byte %d)", v.tag());
+          });
+          op_end();
+        } else if (use_update && i % 2 == 1) {
           op_begin(1, 64, 0, false);
           sl->update([](T& v) {
             if (!v.consistent()) fail("TORN", "update functor received a torn value (tag byte %d)", v.tag());
@@ -183,6 +191,17 @@ void seqlock_roundtrip() {
       reinterpret_cast<unsigned char*>(&x)[N - 1 - i] ^= 0x81;
       y = sl->load();
       if (memcmp(&x, &y, N) != 0) fail("TRUNCATED", "load() after update() differs from the updated value (size %d)", N);
+      // an update whose functor leaves the value untouched (saturating counter, "modify only if ...") is still an update
+      for (int rep = 0; rep <= (pass + i) % 3; rep++) {
+        sl->update([](T&) {});
+        y = sl->load();
+        if (memcmp(&x, &y, N) != 0) fail("STALE", "load() after %d update(s) that left the value unchanged differs from the current value (size %d, %u slots)", rep + 1, N, Slots);
+      }
+      if ((pass + i) % 4 == 0) {
+        sl->update([&x](T& v) { if (memcmp(&v, &x, N) != 0) v = x; });
+        y = sl->load();
+        if (memcmp(&x, &y, N) != 0) fail("STALE", "load() after a conditional update differs from the current value (size %d)", N);
+      }
     }
   }
   mark_nontrivial();
